@@ -3,7 +3,11 @@ C06 — Item selection returns exactly the items implied by the document structu
 
 Model: `Earverif/Model/Adm.lean`, `Earverif/Model/SelectItems.lean` (transliteration of
 `select_rendering_items`).  This file: the declarative comprehension (`specStates`,
-`specItem`, `specSelect`) and the property theorems.  Helper lemmas: `Proofs/C06.lean`.
+`specItem`, `specSelect`) and the property theorems.  Helper lemmas: `Proofs/C06.lean`, `Proofs/C06Spec.lean`,
+`Proofs/C06WF.lean`; link to the C14 model of `validate_structure`: `Proofs/C06Doc.lean`.
+
+Headlines: `select_eq_decl_validated`, `select_ok_iff` (validated documents: what is returned, and when),
+`select_eq_decl` (the items, declaratively), `select_perm_*` / `select_renumber_*` (declaration order).
 -/
 import Earverif.Proofs.C06
 import Earverif.Proofs.C06Spec
@@ -11,6 +15,7 @@ import Earverif.Proofs.C06WF
 import Earverif.Props.C07
 import Earverif.Props.C20
 import Earverif.Proofs.C14Empty
+import Earverif.Proofs.C06Doc
 
 namespace Earverif.Adm
 
@@ -787,10 +792,11 @@ theorem ChildPerm.selectComplementary {a a' : Adm} (h : ChildPerm a a') (sel : L
 /-- **select_perm_partial** (reference-list order): re-ordering the contents of programmes, the
 objects of contents and the sub-objects of objects permutes the selected items (and does not
 change whether selection succeeds).
-PARTIAL: not covered by this theorem — re-numbering (declaration order) of the element lists
-themselves (audioObjects/audioPackFormats/audioChannelFormats/audioTrackUIDs with references
-remapped) and re-ordering of an object's pack/track reference lists; those are tied to the code
-only by the correspondence and searched by the direct predicate. -/
+PARTIAL: this theorem covers the child reference lists of the content part only.  The other re-declarations have
+their own theorems: `select_perm_objects` (re-numbering audioObjects), `select_perm_own_refs` (an object's pack /
+track reference lists), `select_perm_formats` (re-numbering audioPackFormats / audioChannelFormats / audioTrackUIDs),
+`select_renumber_contents` / `select_renumber_programmes`.  Not covered by any of them: re-ordering the sub-pack
+reference list of an audioPackFormat (tied to the code by the correspondence and searched by the direct predicate). -/
 theorem select_perm_partial {a a' : Adm} (h : ChildPerm a a') (given : Option Nat) (sel : List Nat)
     {items : List Item} (hs : selectRenderingItems a given sel = .ok items) :
     ∃ items', selectRenderingItems a' given sel = .ok items' ∧ items.Perm items' := by
@@ -2498,47 +2504,8 @@ theorem fmtRenamed_itemsOfState {m : FmtMaps} {a a' : Adm} (h : FmtRenamed m a a
       cases hzs
       exact hpz.symm
 
-/-- **select_perm_formats_partial**: re-numbering the audioPackFormats, audioChannelFormats and
-audioTrackUIDs (and stream/track formats) — i.e. declaring them in another order with every
-reference remapped — permutes the selected items, with pack and channel indices renamed.
-PARTIAL: (i) stated for documents with a programme or objects (in CHNA-only mode the allocation
-takes the audioTrackUIDs in declaration order and the position of a track is its identity in the
-allocator model); (ii) assumes that selection succeeds on both documents — that it succeeds on the
-re-numbered document whenever it does on the original needs the converse transfer of valid
-allocations (C07's `accept_iff_unique` would then apply); (iii) `AllocWF a'`: C07's well-formedness of
-the allocation problems (a consequence of the multitree validation). -/
-theorem select_perm_formats_partial {m : FmtMaps} {a a' : Adm} (h : FmtRenamed m a a')
-    (hwf : a.refsInRange = true) (hne : ¬ (a.programmes = [] ∧ a.objects = [])) (hwf' : AllocWF a')
-    (given : Option Nat) (sel : List Nat) {items items' : List Item}
-    (hs : selectRenderingItems a given sel = .ok items)
-    (hs' : selectRenderingItems a' given sel = .ok items') :
-    items'.Perm (items.map (renItemF m)) := by
-  have hok := fmtRefsOK_of_refsInRange hwf
-  have hto := objTracksOK_of_refsInRange hwf
-  rw [select_eq_spec] at hs hs'
-  unfold specSelect at hs hs'
-  rw [h.selectComplementary_eq, selectProgramme_congr (a := a) (a' := a') (by rw [h.programmes]) given] at hs'
-  cases hw : wrappedPacks a.fmt with
-  | error e => simp [hw] at hs
-  | ok wps =>
-    cases hw' : wrappedPacks a'.fmt with
-    | error e => simp [hw'] at hs'
-    | ok wps' =>
-      simp only [hw] at hs
-      simp only [hw'] at hs'
-      cases hc : selectComplementary a sel with
-      | error e => simp [hc] at hs
-      | ok ign =>
-        simp only [hc, h.specStates_eq] at hs hs'
-        obtain ⟨hall, rfl⟩ := (flatMapE_ok_iff _ _ _).1 hs
-        obtain ⟨hall', rfl⟩ := (flatMapE_ok_iff _ _ _).1 hs'
-        rw [List.map_flatMap]
-        refine perm_flatMap_congr (.refl _) fun st hst => ?_
-        obtain ⟨p, hp⟩ := specStates_some_path hne hst
-        obtain ⟨its, hits⟩ := hall st hst
-        obtain ⟨its', hits'⟩ := hall' st hst
-        have := fmtRenamed_itemsOfState h hok hto hwf' st hp hits hits'
-        simpa [okVal, hits, hits'] using this
+/-! (the headline theorems `select_perm_formats` / `select_perm_formats_rename` — success in both directions, CHNA-only
+mode included — are further down, after the lemmas on re-ordered track lists they use.) -/
 
 
 /-! ### `rename` form and the well-formedness hypothesis made checkable -/
@@ -2670,22 +2637,6 @@ theorem allocWF_of_check {a : Adm} (h : allocWFCheck a = true) : AllocWF a := by
   unfold allocWFCheck at h
   rw [hw] at h
   exact of_decide_eq_true h
-
-/-- **select_perm_formats_partial** in `rename` form. -/
-theorem select_perm_formats_rename_partial {m mi : FmtMaps} {a : Adm} (hwf : a.refsInRange = true)
-    (hP : ((List.range a.fmt.packs.length).map m.σP).Perm (List.range a.fmt.packs.length))
-    (hC : ((List.range a.fmt.channels.length).map m.σC).Perm (List.range a.fmt.channels.length))
-    (hU : ((List.range a.fmt.trackUIDs.length).map m.σU).Perm (List.range a.fmt.trackUIDs.length))
-    (hiP : ∀ i, i < a.fmt.packs.length → mi.σP (m.σP i) = i)
-    (hiC : ∀ i, i < a.fmt.channels.length → mi.σC (m.σC i) = i)
-    (hiU : ∀ i, i < a.fmt.trackUIDs.length → mi.σU (m.σU i) = i)
-    (hne : ¬ (a.programmes = [] ∧ a.objects = [])) (hcheck : allocWFCheck (renameFormats m mi a) = true)
-    (given : Option Nat) (sel : List Nat) {items items' : List Item}
-    (hs : selectRenderingItems a given sel = .ok items)
-    (hs' : selectRenderingItems (renameFormats m mi a) given sel = .ok items') :
-    items'.Perm (items.map (renItemF m)) :=
-  select_perm_formats_partial (renameFormats_renamed hwf hP hC hU hiP hiC hiU) hwf hne
-    (allocWF_of_check hcheck) given sel hs hs'
 
 section Declarative
 open Earverif.TrackSpec (MChan packSpec meaning vsum delayOpt scaleOpt)
@@ -4196,6 +4147,1117 @@ theorem select_renumber_programmes_rename {ρ ρinv : Nat → Nat} {a : Adm}
       (selectRenderingItems a given sel).map (List.map (renItemP ρ)) :=
   select_renumber_programmes (renameProgrammes_renamed hρ hρinv hinv hids) given hgiven sel
 
+section FmtSuccess
+open PackAlloc (Problem Sol Valid WF SolEquiv dropEmpty)
+
+/-! ## re-numbering the format part: success is preserved in both directions -/
+
+/-- a node of the pack/channel graph, renamed. -/
+def renNode (m : FmtMaps) : PNode → PNode
+  | .pack i => .pack (m.σP i)
+  | .chan c => .chan (m.σC c)
+
+theorem nodup_map_of_inj_on {α β : Type} {l : List α} {f : α → β} (hl : l.Nodup)
+    (hf : ∀ x ∈ l, ∀ y ∈ l, f x = f y → x = y) : (l.map f).Nodup := by
+  unfold List.Nodup at *
+  rw [List.pairwise_map]
+  exact hl.imp_of_mem (fun hx hy hne h' => hne (hf _ hx _ hy h'))
+
+theorem mtVisit_bounds {f : Formats} (hok : FmtRefsOK f) : ∀ fuel p, p < f.packs.length →
+    ∀ n ∈ mtVisit f fuel p, (∀ i, n = .pack i → i < f.packs.length) ∧ (∀ c, n = .chan c → c < f.channels.length)
+  | 0, _, _, n, hn => by simp [mtVisit] at hn
+  | fuel + 1, p, hp, n, hn => by
+    simp only [mtVisit, List.mem_cons, List.mem_append, List.mem_flatMap, List.mem_map] at hn
+    rcases hn with rfl | ⟨s, hs, hn⟩ | ⟨c, hc, rfl⟩
+    · exact ⟨fun i hi => (by cases hi; exact hp), fun c hc => (by cases hc)⟩
+    · exact mtVisit_bounds hok fuel s (hok.subs p s hs) n hn
+    · exact ⟨fun i hi => (by cases hi), fun c' hc' => (by cases hc'; exact hok.chans p c hc)⟩
+
+theorem FmtRenamed.mtVisit {m : FmtMaps} {a a' : Adm} (h : FmtRenamed m a a') (hok : FmtRefsOK a.fmt) :
+    ∀ fuel p, p < a.fmt.packs.length →
+      mtVisit a'.fmt fuel (m.σP p) = (Earverif.Adm.mtVisit a.fmt fuel p).map (renNode m)
+  | 0, _, _ => rfl
+  | fuel + 1, p, hp => by
+    simp only [Earverif.Adm.mtVisit, h.pack p hp, renPack, List.map_cons, List.map_append, List.map_map,
+      List.flatMap_map, List.map_flatMap, renNode]
+    congr 2
+    · exact flatMap_congr' fun s hs => FmtRenamed.mtVisit h hok fuel s (hok.subs p s hs)
+
+/-- the multitree check is invariant under re-numbering of the format part. -/
+theorem FmtRenamed.multitreeOK {m : FmtMaps} {a a' : Adm} (h : FmtRenamed m a a') (hok : FmtRefsOK a.fmt)
+    (hmt : multitreeOK a.fmt = true) : multitreeOK a'.fmt = true := by
+  unfold Earverif.Adm.multitreeOK at hmt ⊢
+  simp only [List.all_eq_true, List.mem_range, decide_eq_true_eq] at hmt ⊢
+  intro p' hp'
+  rw [h.npacks] at hp'
+  obtain ⟨p, hpm, rfl⟩ := List.mem_map.1 (h.permP.mem_iff.2 (List.mem_range.2 hp'))
+  have hp := List.mem_range.1 hpm
+  rw [h.npacks, h.mtVisit hok _ p hp]
+  refine nodup_map_of_inj_on (hmt p hp) ?_
+  intro x hx y hy hxy
+  have bx := mtVisit_bounds hok _ p hp x hx
+  have b_y := mtVisit_bounds hok _ p hp y hy
+  cases x with
+  | pack i =>
+    cases y with
+    | pack j =>
+      simp only [renNode, PNode.pack.injEq] at hxy
+      rw [perm_inj h.permP (bx.1 i rfl) (b_y.1 j rfl) hxy]
+    | chan c => simp [renNode] at hxy
+  | chan c =>
+    cases y with
+    | pack j => simp [renNode] at hxy
+    | chan c' =>
+      simp only [renNode, PNode.chan.injEq] at hxy
+      rw [perm_inj h.permC (bx.2 c rfl) (b_y.2 c' rfl) hxy]
+
+
+/-! ### allocation problems that correspond under a renaming with an inverse -/
+
+/-- renaming of indices (`m`) followed by a move of the track identities (`g`). -/
+def rrTrack (m : FmtMaps) (g : Nat → Nat) (t : PackAlloc.Track) : PackAlloc.Track := reTrack g (renTrack m t)
+
+def rrAllocated (m : FmtMaps) (g : Nat → Nat) (al : PackAlloc.Allocated) : PackAlloc.Allocated :=
+  reAllocated g (renAllocated m al)
+
+/-- `prob'` is `prob` with pack/channel indices renamed by `m` and track identities moved by `g`, the
+`AllocationPack`s and tracks listed in any order; `mi`, `k` undo `m`, `g` on everything `prob` mentions. -/
+structure ProbIso (m mi : FmtMaps) (g k : Nat → Nat) (prob prob' : Problem) : Prop where
+  packs : prob'.packs.Perm (prob.packs.map (renAPack m))
+  tracks : (prob.tracks.map (rrTrack m g)).Perm prob'.tracks
+  refs : prob'.packRefs = prob.packRefs.map (List.map m.σP)
+  silent : prob'.numSilent = prob.numSilent
+  invP : ∀ p ∈ prob.packs, renAPack mi (renAPack m p) = p
+  invT : ∀ t ∈ prob.tracks, rrTrack mi k (rrTrack m g t) = t
+  invR : ∀ r, prob.packRefs = some r → r.map (fun x => mi.σP (m.σP x)) = r
+
+theorem map_eq_self_of {α : Type} {f : α → α} : ∀ {l : List α}, (∀ x ∈ l, f x = x) → l.map f = l
+  | [], _ => rfl
+  | x :: xs, h => by
+    rw [List.map_cons, h x (List.mem_cons_self ..), map_eq_self_of fun y hy => h y (List.mem_cons_of_mem _ hy)]
+
+theorem mem_of_map_eq_self {α : Type} {f : α → α} : ∀ {l : List α}, l.map f = l → ∀ x ∈ l, f x = x
+  | [], _, _, hx => by cases hx
+  | y :: ys, h, x, hx => by
+    simp only [List.map_cons, List.cons.injEq] at h
+    rcases List.mem_cons.1 hx with rfl | hx
+    · exact h.1
+    · exact mem_of_map_eq_self h.2 x hx
+
+namespace ProbIso
+variable {m mi : FmtMaps} {g k : Nat → Nat} {prob prob' : Problem}
+
+theorem symm (h : ProbIso m mi g k prob prob') : ProbIso mi m k g prob' prob := by
+  have hpk : ∀ p' ∈ prob'.packs, ∃ p ∈ prob.packs, p' = renAPack m p := by
+    intro p' hp'
+    obtain ⟨p, hp, e⟩ := List.mem_map.1 (h.packs.mem_iff.1 hp')
+    exact ⟨p, hp, e.symm⟩
+  have htr : ∀ t' ∈ prob'.tracks, ∃ t ∈ prob.tracks, t' = rrTrack m g t := by
+    intro t' ht'
+    obtain ⟨t, ht, e⟩ := List.mem_map.1 (h.tracks.mem_iff.2 ht')
+    exact ⟨t, ht, e.symm⟩
+  refine ⟨?_, ?_, ?_, h.silent.symm, ?_, ?_, ?_⟩
+  · have := (h.packs.map (renAPack mi)).symm
+    rw [List.map_map, map_eq_self_of (f := renAPack mi ∘ renAPack m) (fun p hp => h.invP p hp)] at this
+    exact this
+  · have := (h.tracks.map (rrTrack mi k)).symm
+    rw [List.map_map, map_eq_self_of (f := rrTrack mi k ∘ rrTrack m g) (fun t ht => h.invT t ht)] at this
+    exact this
+  · rw [h.refs]
+    cases hr : prob.packRefs with
+    | none => rfl
+    | some r =>
+      simp only [Option.map_some, List.map_map, Option.some.injEq]
+      exact (h.invR r hr).symm
+  · intro p' hp'
+    obtain ⟨p, hp, rfl⟩ := hpk p' hp'
+    rw [h.invP p hp]
+  · intro t' ht'
+    obtain ⟨t, ht, rfl⟩ := htr t' ht'
+    rw [h.invT t ht]
+  · intro r' hr'
+    rw [h.refs] at hr'
+    cases hr : prob.packRefs with
+    | none => rw [hr] at hr'; cases hr'
+    | some r =>
+      rw [hr] at hr'
+      simp only [Option.map_some, Option.some.injEq] at hr'
+      subst hr'
+      rw [List.map_map]
+      refine List.map_congr_left fun x hx => ?_
+      have := mem_of_map_eq_self (h.invR r hr) x hx
+      simp only [Function.comp, this]
+
+/-- a valid allocation of `prob`, renamed, is a valid allocation of `prob'`. -/
+theorem valid (h : ProbIso m mi g k prob prob') {sol : Sol} (hv : Valid prob sol) :
+    Valid prob' (sol.map (rrAllocated m g)) := by
+  let prob1 : Problem := ⟨prob'.packs, prob.tracks.map (renTrack m), prob'.packRefs, prob'.numSilent⟩
+  have h1 : Valid prob1 (sol.map (renAllocated m)) := valid_rename m (prob := prob) (prob' := prob1) h.packs rfl h.refs h.silent hv
+  have h2 : Valid prob' ((sol.map (renAllocated m)).map (reAllocated g)) := by
+    refine valid_retrack g (prob := prob1) (prob' := prob') rfl ?_ ?_ rfl h1
+    · show ((prob.tracks.map (renTrack m)).map (reTrack g)).Perm prob'.tracks
+      rw [List.map_map]; exact h.tracks
+    · show match prob'.packRefs, prob'.packRefs with
+        | none, none => True
+        | some r, some r' => r.Perm r'
+        | _, _ => False
+      cases prob'.packRefs with
+      | none => trivial
+      | some r => exact .refl _
+  rw [List.map_map] at h2
+  exact h2
+
+theorem rrAllocated_inv (h : ProbIso m mi g k prob prob') {sol : Sol} (hv : Valid prob sol)
+    {al : PackAlloc.Allocated} (hal : al ∈ sol) : rrAllocated mi k (rrAllocated m g al) = al := by
+  have hpk := h.invP _ (hv.packs_mem al hal)
+  have hch : ∀ c ∈ al.pack.channels, renCh mi (renCh m c) = c := by
+    have : al.pack.channels.map (renCh mi ∘ renCh m) = al.pack.channels := by
+      have := congrArg PackAlloc.Pack.channels hpk
+      simpa [renAPack, List.map_map] using this
+    exact mem_of_map_eq_self this
+  have hchan := hv.channels al hal
+  obtain ⟨pk, allocation⟩ := al
+  simp only [rrAllocated, reAllocated, renAllocated, List.map_map, PackAlloc.Allocated.mk.injEq]
+  simp only at hpk hch hchan
+  refine ⟨hpk, ?_⟩
+  refine map_eq_self_of fun cs hcs => ?_
+  obtain ⟨c, s⟩ := cs
+  have hc : c ∈ pk.channels := by rw [← hchan]; exact List.mem_map.2 ⟨(c, s), hcs, rfl⟩
+  simp only [Function.comp, Prod.mk.injEq]
+  refine ⟨hch c hc, ?_⟩
+  cases s with
+  | none => rfl
+  | some x =>
+    cases x with
+    | none => rfl
+    | some t =>
+      have hmem : t ∈ PackAlloc.realTracks sol := by
+        simp only [PackAlloc.realTracks, PackAlloc.filled, PackAlloc.slots, List.mem_filterMap, List.mem_flatMap, id]
+        exact ⟨some t, ⟨(c, some (some t)), ⟨⟨pk, allocation⟩, hal, hcs⟩, rfl⟩, rfl⟩
+      have := h.invT t (hv.tracks.mem_iff.1 hmem)
+      simp only [rrTrack] at this
+      simp only [reSlot, renSlot, Option.map_some, this]
+
+theorem roundtrip (h : ProbIso m mi g k prob prob') {sol : Sol} (hv : Valid prob sol) :
+    (sol.map (rrAllocated m g)).map (rrAllocated mi k) = sol := by
+  rw [List.map_map]
+  exact map_eq_self_of fun al hal => h.rrAllocated_inv hv hal
+
+/-- `select_pack_mapping` accepts `prob'` whenever it accepts `prob`, with the renamed allocation
+(C07 `accept_iff_unique`: validity and uniqueness transfer there and back). -/
+theorem accepted (h : ProbIso m mi g k prob prob') (hwf : WF prob) (hwf' : WF prob') {sol : Sol}
+    (hs : PackAlloc.selectPackMapping prob = .accepted sol) :
+    ∃ sol', PackAlloc.selectPackMapping prob' = .accepted sol' ∧ SolEquiv sol' (sol.map (rrAllocated m g)) := by
+  obtain ⟨hv, hu⟩ := PackAlloc.select_accepted_unique prob hwf sol hs
+  have hv' := h.valid hv
+  have huniq : ∀ s'', Valid prob' s'' → SolEquiv (sol.map (rrAllocated m g)) s'' := by
+    intro s'' hv''
+    have hback := h.symm.valid hv''
+    have := (hu _ hback).map (rrAllocated m g)
+    rw [h.symm.roundtrip hv''] at this
+    exact this
+  obtain ⟨s', hs'⟩ := (PackAlloc.select_accepted_iff_unique_valid prob' hwf').2 ⟨_, hv', huniq⟩
+  exact ⟨s', hs', (PackAlloc.select_accepted_unique prob' hwf' s' hs').2 _ hv'⟩
+
+theorem hasChannels_ren (p : PackAlloc.Pack) : PackAlloc.hasChannels (renAPack m p) = PackAlloc.hasChannels p := by
+  simp [PackAlloc.hasChannels, renAPack]
+
+/-- the correspondence restricts to the problems without channel-less `AllocationPack`s. -/
+theorem dropEmpty (h : ProbIso m mi g k prob prob') : ProbIso m mi g k (dropEmpty prob) (dropEmpty prob') := by
+  refine ⟨?_, h.tracks, h.refs, h.silent, fun p hp => h.invP p (List.mem_filter.1 hp).1, h.invT, h.invR⟩
+  show (prob'.packs.filter PackAlloc.hasChannels).Perm ((prob.packs.filter PackAlloc.hasChannels).map (renAPack m))
+  have := h.packs.filter PackAlloc.hasChannels
+  rw [List.filter_map] at this
+  have e : (PackAlloc.hasChannels ∘ renAPack m) = PackAlloc.hasChannels := funext fun p => hasChannels_ren p
+  rw [e] at this
+  exact this
+
+end ProbIso
+
+theorem slots_pfs_bounds {f : Formats} (hok : FmtRefsOK f) {p : Nat} (hp : p < f.packs.length) :
+    ∀ s ∈ slots f p, ∀ q ∈ s.1, q < f.packs.length := by
+  intro s hs
+  simp only [slots, List.mem_flatMap, List.mem_map] at hs
+  obtain ⟨path, hpath, ch, _, rfl⟩ := hs
+  exact (chain_of_mem_pathsFrom _ _ _ hpath).all_lt (fun i _ => hok.subs i) hp
+
+theorem wrapOne_pfs_bounds {f : Formats} (hok : FmtRefsOK f) {p : Nat} (hp : p < f.packs.length) {ws : List WPack}
+    (h : wrapOne f p = .ok ws) : ∀ w ∈ ws, ∀ c ∈ w.channels, ∀ q ∈ c.pfs, q < f.packs.length := by
+  have hreg : ∀ q, q < f.packs.length →
+      ∀ c ∈ (slots f q).map (fun s => (⟨s.2, s.1⟩ : PackAlloc.Channel)), ∀ x ∈ c.pfs, x < f.packs.length := by
+    intro q hq c hc
+    obtain ⟨s, hs, rfl⟩ := List.mem_map.1 hc
+    exact slots_pfs_bounds hok hq s hs
+  have hflat : ∀ q fixed, fixed < f.packs.length →
+      ∀ c ∈ (slots f q).map (fun s => (⟨s.2, [fixed]⟩ : PackAlloc.Channel)), ∀ x ∈ c.pfs, x < f.packs.length := by
+    intro q fixed hfx c hc x hx
+    obtain ⟨s, _, rfl⟩ := List.mem_map.1 hc
+    simp only [List.mem_singleton] at hx
+    subst hx; exact hfx
+  unfold wrapOne at h
+  split at h
+  · cases h
+    intro w hw
+    simp only [List.mem_singleton] at hw
+    subst hw
+    exact hreg p hp
+  · unfold wrapMatrix at h
+    dsimp only at h
+    split at h
+    · cases h
+      intro w hw
+      simp only [List.mem_cons, List.not_mem_nil, or_false] at hw
+      rcases hw with rfl | rfl
+      · exact hflat _ p hp
+      · exact hreg p hp
+    · cases h; intro w hw; cases hw
+    · split at h
+      · rename_i e he
+        have hel : e < f.packs.length := hok.enc p e (by rw [he]; simp)
+        split at h
+        · cases h
+          intro w hw
+          simp only [List.mem_cons, List.not_mem_nil, or_false] at hw
+          rcases hw with rfl | rfl | rfl
+          · exact hflat _ p hp
+          · exact hreg p hp
+          · exact hflat _ e hel
+        · cases h
+      · cases h
+    · cases h
+
+/-- everything an `AllocationPack` of the document mentions is an element of the document. -/
+theorem wrappedPacks_all_bounds {f : Formats} (hok : FmtRefsOK f) {wps : List WPack} (h : wrappedPacks f = .ok wps) :
+    ∀ w ∈ wps, w.id / 3 < f.packs.length ∧ w.root < f.packs.length ∧
+      ∀ c ∈ w.channels, c.cf < f.channels.length ∧ ∀ q ∈ c.pfs, q < f.packs.length := by
+  intro w hw
+  have hb := wrappedPacks_bounds hok h w hw
+  rw [wrappedPacks_eq] at h
+  obtain ⟨p, hp, ws, hws, hmem⟩ := flatMapE_mem h hw
+  have hp' := List.mem_range.1 hp
+  have hsh := (wrapOne_shape hws).1 w hmem
+  refine ⟨by rw [hsh.2.1]; exact hp', hb.1, fun c hc => ⟨hb.2 c hc, wrapOne_pfs_bounds hok hp' hws w hmem c hc⟩⟩
+
+theorem renWid_inv {m mi : FmtMaps} {n : Nat} (hi : ∀ i, i < n → mi.σP (m.σP i) = i) {i : Nat} (h : i / 3 < n) :
+    renWid mi (renWid m i) = i := by
+  unfold renWid
+  have h1 : (3 * m.σP (i / 3) + i % 3) / 3 = m.σP (i / 3) := by omega
+  have h2 : (3 * m.σP (i / 3) + i % 3) % 3 = i % 3 := by omega
+  rw [h1, h2, hi _ h]
+  omega
+
+/-- what `refsInRange` says about the references item selection follows into the format part. -/
+theorem uidPack_lt {a : Adm} (hwf : a.refsInRange = true) {u : Nat} (hu : u < a.fmt.trackUIDs.length) :
+    (a.fmt.uid u).pack < a.fmt.packs.length := by
+  unfold Adm.refsInRange at hwf
+  simp only [Bool.and_eq_true, List.all_eq_true, decide_eq_true_eq] at hwf
+  obtain ⟨_, huid⟩ := hwf
+  exact (huid _ (getD_mem_of_lt hu _)).1
+
+theorem objPacks_lt {a : Adm} (hwf : a.refsInRange = true) (i : Nat) : ∀ p ∈ (a.obj i).packs, p < a.fmt.packs.length := by
+  unfold Adm.refsInRange at hwf
+  simp only [Bool.and_eq_true, List.all_eq_true, decide_eq_true_eq] at hwf
+  obtain ⟨⟨⟨⟨⟨⟨⟨_, _⟩, ho⟩, _⟩, _⟩, _⟩, _⟩, _⟩ := hwf
+  intro p hp
+  unfold Adm.obj at hp
+  rcases getD_mem_or_default a.objects i default with hm | hd
+  · exact (ho _ hm).1.1.1 p hp
+  · rw [hd] at hp; cases hp
+
+/-- the inverse renaming maps: `mi` undoes `m` on the indices of the document. -/
+structure FmtInv (m mi : FmtMaps) (f : Formats) : Prop where
+  permU : ((List.range f.trackUIDs.length).map m.σU).Perm (List.range f.trackUIDs.length)
+  invP : ∀ i, i < f.packs.length → mi.σP (m.σP i) = i
+  invC : ∀ i, i < f.channels.length → mi.σC (m.σC i) = i
+  invU : ∀ i, i < f.trackUIDs.length → mi.σU (m.σU i) = i
+
+theorem stateUids_lt {a : Adm} (hwf : a.refsInRange = true) (st : State) :
+    ∀ u ∈ stateUids a st, u < a.fmt.trackUIDs.length := by
+  unfold stateUids
+  cases st.objPath with
+  | none => intro u hu; exact List.mem_range.1 hu
+  | some p =>
+    intro u hu
+    simp only [List.mem_filterMap, id] at hu
+    obtain ⟨x, hx, rfl⟩ := hu
+    exact objTracksOK_of_refsInRange hwf _ u hx
+
+theorem allocProblem_tracks_eq (a : Adm) (st : State) (wps : List WPack) :
+    (allocProblem a st wps).1.tracks = (List.range (stateUids a st).length).map fun i =>
+      (⟨i, trackChannel a.fmt ((stateUids a st).getD i 0), (a.fmt.uid ((stateUids a st).getD i 0)).pack⟩ : PackAlloc.Track) := by
+  rw [(allocProblem_fields a st wps).2.1, zipIdx_map_eq_range_map]
+
+/-- per state: the allocation problem of the re-numbered document corresponds to that of the original
+(`g` = where the identity of a selected track moves: nowhere for the tracks of an audioObject, to the new
+position of the audioTrackUID in CHNA-only mode). -/
+theorem fmtRenamed_stateIso {m mi : FmtMaps} {a a' : Adm} (h : FmtRenamed m a a') (hinv : FmtInv m mi a.fmt)
+    (hwf : a.refsInRange = true) (st : State) {wps wps' : List WPack} (hw : wrappedPacks a.fmt = .ok wps)
+    (hwp : wps'.Perm (wps.map (renW m))) :
+    ∃ g k : Nat → Nat,
+      ProbIso m mi g k (allocProblem a st wps).1 (allocProblem a' st wps').1 ∧
+      (∀ i, i < (stateUids a st).length → g i < (stateUids a' st).length ∧
+        (stateUids a' st)[g i]? = ((stateUids a st).map m.σU)[i]?) := by
+  have hok := fmtRefsOK_of_refsInRange hwf
+  have hul := stateUids_lt hwf st
+  -- the `AllocationPack`s
+  have hpacks : (allocProblem a' st wps').1.packs.Perm ((allocProblem a st wps).1.packs.map (renAPack m)) := by
+    rw [allocProblem_packs, allocProblem_packs]
+    refine (hwp.map _).trans ?_
+    simp only [List.map_map]
+    exact .refl _
+  have hinvP : ∀ p ∈ (allocProblem a st wps).1.packs, renAPack mi (renAPack m p) = p := by
+    intro p hp
+    rw [allocProblem_packs] at hp
+    obtain ⟨w, hwm, rfl⟩ := List.mem_map.1 hp
+    obtain ⟨b1, b2, b3⟩ := wrappedPacks_all_bounds hok hw w hwm
+    simp only [renAPack, List.map_map, PackAlloc.Pack.mk.injEq]
+    refine ⟨renWid_inv hinv.invP b1, hinv.invP _ b2, map_eq_self_of fun c hc => ?_⟩
+    obtain ⟨cf, pfs⟩ := c
+    obtain ⟨c1, c2⟩ := b3 _ hc
+    simp only [Function.comp, renCh, List.map_map, PackAlloc.Channel.mk.injEq]
+    exact ⟨hinv.invC _ c1, map_eq_self_of fun q hq => hinv.invP q (c2 q hq)⟩
+  have hinvR : ∀ r, (allocProblem a st wps).1.packRefs = some r → r.map (fun x => mi.σP (m.σP x)) = r := by
+    intro r hr
+    rw [(allocProblem_fields a st wps).2.2.1] at hr
+    unfold State.leaf at hr
+    cases hp : st.objPath with
+    | none => simp [hp] at hr
+    | some p =>
+      simp only [hp, Option.map_some, Option.some.injEq] at hr
+      subst hr
+      exact map_eq_self_of fun q hq => hinv.invP q (objPacks_lt hwf _ q hq)
+  have hinvT : ∀ (g k : Nat → Nat), (∀ i, i < (stateUids a st).length → k (g i) = i) →
+      ∀ t ∈ (allocProblem a st wps).1.tracks, rrTrack mi k (rrTrack m g t) = t := by
+    intro g k hkg t ht
+    rw [allocProblem_tracks_eq] at ht
+    obtain ⟨i, hi, rfl⟩ := List.mem_map.1 ht
+    have hi' := List.mem_range.1 hi
+    have hu : (stateUids a st).getD i 0 < a.fmt.trackUIDs.length := hul _ (getD_mem_of_lt hi' 0)
+    simp only [rrTrack, reTrack, renTrack, PackAlloc.Track.mk.injEq]
+    exact ⟨hkg i hi', hinv.invC _ (trackChannel_lt hwf hu), hinv.invP _ (uidPack_lt hwf hu)⟩
+  cases hp : st.objPath with
+  | some p =>
+    obtain ⟨_, htr, hrf, hns, hu', _⟩ := h.allocProblem (objTracksOK_of_refsInRange hwf) st hp hwp
+    rw [allocProblem_uids, allocProblem_uids] at hu'
+    refine ⟨id, id, ⟨hpacks, ?_, hrf, hns, hinvP, hinvT id id (fun _ _ => rfl), hinvR⟩, fun i hi => ?_⟩
+    · rw [htr]
+      exact .refl _
+    · rw [hu']
+      exact ⟨by simpa using hi, rfl⟩
+  | none =>
+    have hu1 : stateUids a st = List.range a.fmt.trackUIDs.length := by simp [stateUids, hp]
+    have hu2 : stateUids a' st = List.range a.fmt.trackUIDs.length := by simp [stateUids, hp, h.nuids]
+    refine ⟨m.σU, mi.σU, ⟨hpacks, ?_, ?_, ?_, hinvP, hinvT m.σU mi.σU (fun i hi => hinv.invU i (by simpa [hu1] using hi)),
+      hinvR⟩, fun i hi => ?_⟩
+    · rw [allocProblem_tracks_eq, allocProblem_tracks_eq, hu1, hu2, List.map_map, List.length_range]
+      have e : (List.range a.fmt.trackUIDs.length).map (rrTrack m m.σU ∘ fun i =>
+            (⟨i, trackChannel a.fmt ((List.range a.fmt.trackUIDs.length).getD i 0),
+              (a.fmt.uid ((List.range a.fmt.trackUIDs.length).getD i 0)).pack⟩ : PackAlloc.Track)) =
+          ((List.range a.fmt.trackUIDs.length).map m.σU).map fun j =>
+            (⟨j, trackChannel a'.fmt ((List.range a.fmt.trackUIDs.length).getD j 0),
+              (a'.fmt.uid ((List.range a.fmt.trackUIDs.length).getD j 0)).pack⟩ : PackAlloc.Track) := by
+        rw [List.map_map]
+        refine List.map_congr_left fun i hi => ?_
+        have hi' := List.mem_range.1 hi
+        have h1 : (List.range a.fmt.trackUIDs.length).getD i 0 = i := by
+          simp [List.getD_eq_getElem?_getD, List.getElem?_range hi']
+        have h2 : (List.range a.fmt.trackUIDs.length).getD (m.σU i) 0 = m.σU i := by
+          simp [List.getD_eq_getElem?_getD, List.getElem?_range (perm_lt hinv.permU hi')]
+        simp only [Function.comp, rrTrack, reTrack, renTrack, h1, h2, h.uidChan i hi', h.uidPack i hi']
+      rw [e]
+      exact hinv.permU.map _
+    · simp [allocProblem, hp]
+    · simp [allocProblem, hp]
+    · rw [hu1, List.length_range] at hi
+      rw [hu2, hu1]
+      have := perm_lt hinv.permU hi
+      simp [this, hi]
+
+
+theorem slotSpec_reSlot {f : Formats} {uids' uids'' : List Nat} {g : Nat → Nat} {s : PackAlloc.Slot}
+    (hs : ∀ t, s = some (some t) → uids'[g t.id]? = uids''[t.id]?) :
+    slotSpec f uids' (reSlot g s) = slotSpec f uids'' s := by
+  cases s with
+  | none => rfl
+  | some x =>
+    cases x with
+    | none => rfl
+    | some t => simp only [reSlot, Option.map_some, slotSpec, reTrack, hs t rfl]
+
+/-- moving the track identities and re-listing the selected audioTrackUIDs accordingly does not change the
+output pack / channel allocation. -/
+theorem outputOf_reAllocated {f : Formats} {uids' uids'' : List Nat} {g : Nat → Nat} {al : PackAlloc.Allocated}
+    (h : ∀ cs ∈ al.allocation, ∀ t, cs.2 = some (some t) → uids'[g t.id]? = uids''[t.id]?) :
+    outputOf f uids' (reAllocated g al) = outputOf f uids'' al := by
+  have e : mapE (slotEntry f uids') (reAllocated g al).allocation = mapE (slotEntry f uids'') al.allocation := by
+    simp only [reAllocated]
+    rw [mapE_map]
+    refine mapE_congr fun cs hcs => ?_
+    simp only [slotEntry, slotSpec_reSlot (h cs hcs)]
+  unfold outputOf
+  rw [e]
+  rfl
+
+theorem except_map_ok {α β : Type} {x : Except Err α} {f : α → β} {y : β} (h : x.map f = .ok y) :
+    ∃ z, x = .ok z ∧ y = f z := by
+  cases x with
+  | error e => cases h
+  | ok z => exact ⟨z, rfl, (Except.ok.inj h).symm⟩
+
+theorem FmtRenamed.wrappedPacks_back {m : FmtMaps} {a a' : Adm} (h : FmtRenamed m a a') (hok : FmtRefsOK a.fmt)
+    {wps' : List WPack} (hw' : Earverif.Adm.wrappedPacks a'.fmt = .ok wps') :
+    ∃ wps, Earverif.Adm.wrappedPacks a.fmt = .ok wps := by
+  rw [wrappedPacks_eq] at hw' ⊢
+  obtain ⟨hall, _⟩ := (flatMapE_ok_iff _ _ _).1 hw'
+  refine ⟨_, (flatMapE_ok_iff _ _ _).2 ⟨fun p hp => ?_, rfl⟩⟩
+  have hp' := List.mem_range.1 hp
+  obtain ⟨ws', hws'⟩ := hall (m.σP p) (List.mem_range.2 (by rw [h.npacks]; exact perm_lt h.permP hp'))
+  rw [h.wrapOne hok hp'] at hws'
+  obtain ⟨ws, hws, _⟩ := except_map_ok hws'
+  exact ⟨ws, hws⟩
+
+/-- per state: the pipeline `select_pack_mapping` → `_get_rendering_items` succeeds on the re-numbered
+document exactly when it does on the original, and then the items are a permutation of the renamed items. -/
+theorem fmtRenamed_itemsOfState_iff {m mi : FmtMaps} {a a' : Adm} (h : FmtRenamed m a a')
+    (hinv : FmtInv m mi a.fmt) (hwf : a.refsInRange = true) (hmt : multitreeOK a.fmt = true) (st : State) :
+    (∀ its, itemsOfState a st = .ok its →
+      ∃ its', itemsOfState a' st = .ok its' ∧ its'.Perm (its.map (renItemF m))) ∧
+    (∀ its', itemsOfState a' st = .ok its' → ∃ its, itemsOfState a st = .ok its) := by
+  have hok := fmtRefsOK_of_refsInRange hwf
+  have hmt' := h.multitreeOK hok hmt
+  cases hw : wrappedPacks a.fmt with
+  | error e =>
+    refine ⟨fun its hs => ?_, fun its' hs' => ?_⟩
+    · simp [itemsOfState, selectPackMapping, hw] at hs
+    · exfalso
+      unfold itemsOfState selectPackMapping at hs'
+      cases hw' : wrappedPacks a'.fmt with
+      | error e' => simp [hw'] at hs'
+      | ok wps' =>
+        obtain ⟨wps, hwps⟩ := h.wrappedPacks_back hok hw'
+        rw [hw] at hwps; cases hwps
+  | ok wps =>
+    obtain ⟨wps', hw', hwp⟩ := h.wrappedPacks hok hw
+    obtain ⟨g, k, iso, huids⟩ := fmtRenamed_stateIso h hinv hwf st hw hwp
+    have iso0 := iso.dropEmpty
+    have hwf0 := allocWF0_of_multitree hmt wps st hw
+    have hwf0' := allocWF0_of_multitree hmt' wps' st hw'
+    have hul := stateUids_lt hwf st
+    have hwb := wrappedPacks_bounds hok hw
+    -- facts about a valid allocation of the original problem
+    have hal : ∀ {sol : Sol}, Valid (allocProblem a st wps).1 sol → ∀ al ∈ sol,
+        al.pack.root < a.fmt.packs.length ∧ ∀ cs ∈ al.allocation, cs.1.cf < a.fmt.channels.length := by
+      intro sol hv al hal
+      have hmem := hv.packs_mem al hal
+      rw [allocProblem_packs] at hmem
+      obtain ⟨w, hwm, hwe⟩ := List.mem_map.1 hmem
+      have hb := hwb w hwm
+      refine ⟨by rw [← hwe]; exact hb.1, fun cs hcs => ?_⟩
+      have : cs.1 ∈ al.pack.channels := by
+        rw [← hv.channels al hal]; exact List.mem_map.2 ⟨cs, hcs, rfl⟩
+      rw [← hwe] at this
+      exact hb.2 _ this
+    have hout : ∀ {sol : Sol}, Valid (allocProblem a st wps).1 sol → ∀ al ∈ sol,
+        outputOf a'.fmt (stateUids a' st) (rrAllocated m g al) =
+          (outputOf a.fmt (stateUids a st) al).map (renAP m) := by
+      intro sol hv al halm
+      rw [← h.outputOf hok hul al (hal hv al halm).1 (hal hv al halm).2]
+      refine outputOf_reAllocated fun cs hcs t ht => ?_
+      simp only [renAllocated, List.mem_map] at hcs
+      obtain ⟨cs0, hcs0, rfl⟩ := hcs
+      simp only [renSlot] at ht
+      cases h0 : cs0.2 with
+      | none => simp [h0] at ht
+      | some o =>
+        cases o with
+        | none => simp [h0] at ht
+        | some t0 =>
+          simp only [h0, Option.map_some, Option.some.injEq] at ht
+          subst ht
+          exact (huids t0.id (valid_track_id_lt hv halm hcs0 h0)).2
+    -- from an accepted allocation of the original problem to the outputs on `a'`
+    have hmap : ∀ {sol sol' : Sol}, Valid (allocProblem a st wps).1 sol → SolEquiv sol' (sol.map (rrAllocated m g)) →
+        ∀ {aps : List AllocPack}, mapE (outputOf a.fmt (stateUids a st)) sol = .ok aps →
+          ∃ zs, mapE (outputOf a'.fmt (stateUids a' st)) sol' = .ok zs ∧ (aps.map (renAP m)).Perm zs := by
+      intro sol sol' hv hequiv aps hm
+      have hmapped : mapE (outputOf a'.fmt (stateUids a' st)) (sol.map (rrAllocated m g)) = .ok (aps.map (renAP m)) := by
+        rw [mapE_comm2 (f := outputOf a.fmt (stateUids a st)) (r := renAP m) (fun al hal' => hout hv al hal'), hm]
+        rfl
+      exact mapE_perm _ hequiv.symm hmapped
+    have hitems : ∀ {sol : Sol}, Valid (allocProblem a st wps).1 sol →
+        ∀ {aps : List AllocPack}, mapE (outputOf a.fmt (stateUids a st)) sol = .ok aps → ∀ ap ∈ aps,
+          itemsOfPack a' st (renAP m ap) = (itemsOfPack a st ap).map (List.map (renItemF m)) := by
+      intro sol hv aps hm ap hap
+      obtain ⟨al, halm, ho⟩ := mapE_mem hm hap
+      have hb := outputOf_bounds hok (hal hv al halm).1 (hal hv al halm).2 ho
+      exact h.itemsOfPack hok st hb.1 hb.2
+    refine ⟨fun its hs => ?_, fun its' hs' => ?_⟩
+    · -- forward
+      unfold itemsOfState at hs
+      cases hm : selectPackMapping a st with
+      | error e => simp [hm] at hs
+      | ok aps =>
+        simp only [hm] at hs
+        unfold selectPackMapping at hm
+        simp only [hw] at hm
+        cases hsel : PackAlloc.selectPackMapping (allocProblem a st wps).1 with
+        | conflicting => simp [hsel] at hm
+        | ambiguous => simp [hsel] at hm
+        | accepted sol =>
+          simp only [hsel, allocProblem_uids] at hm
+          have hv := PackAlloc.select_accepted_valid _ sol hsel
+          have hselD := hsel
+          rw [← PackAlloc.selectPackMapping_dropEmpty] at hselD
+          obtain ⟨sol', hs', hequiv⟩ := iso0.accepted hwf0 hwf0' hselD
+          rw [PackAlloc.selectPackMapping_dropEmpty] at hs'
+          obtain ⟨zs, hzs, hpz⟩ := hmap hv hequiv hm
+          have hsm' : selectPackMapping a' st = .ok zs := by
+            unfold selectPackMapping
+            simp only [hw', hs', allocProblem_uids, hzs]
+          have hmapped : flatMapE (itemsOfPack a' st) (aps.map (renAP m)) = .ok (its.map (renItemF m)) := by
+            rw [flatMapE_map, flatMapE_map_comm (f := itemsOfPack a st) (g := renItemF m)
+              (fun ap hap => hitems hv hm ap hap), hs]
+            rfl
+          obtain ⟨its', hits', hpi⟩ := flatMapE_perm _ hpz hmapped
+          refine ⟨its', ?_, hpi.symm⟩
+          unfold itemsOfState
+          simp only [hsm', hits']
+    · -- backward
+      unfold itemsOfState at hs'
+      cases hm' : selectPackMapping a' st with
+      | error e => simp [hm'] at hs'
+      | ok aps' =>
+        simp only [hm'] at hs'
+        unfold selectPackMapping at hm'
+        simp only [hw'] at hm'
+        cases hsel' : PackAlloc.selectPackMapping (allocProblem a' st wps').1 with
+        | conflicting => simp [hsel'] at hm'
+        | ambiguous => simp [hsel'] at hm'
+        | accepted sol' =>
+          simp only [hsel', allocProblem_uids] at hm'
+          have hselD' := hsel'
+          rw [← PackAlloc.selectPackMapping_dropEmpty] at hselD'
+          obtain ⟨sol, hsD, _⟩ := iso0.symm.accepted hwf0' hwf0 hselD'
+          obtain ⟨sol'', hs'', hequiv⟩ := iso0.accepted hwf0 hwf0' hsD
+          rw [hselD'] at hs''
+          cases hs''
+          rw [PackAlloc.selectPackMapping_dropEmpty] at hsD
+          have hv := PackAlloc.select_accepted_valid _ sol hsD
+          -- outputs on `a`
+          obtain ⟨hall', _⟩ := (mapE_ok_iff _ _ _).1 hm'
+          have hallo : ∀ al ∈ sol, ∃ ap, outputOf a.fmt (stateUids a st) al = .ok ap := by
+            intro al halm
+            obtain ⟨ap', hap'⟩ := hall' _ (hequiv.mem_iff.2 (List.mem_map.2 ⟨al, halm, rfl⟩))
+            rw [hout hv al halm] at hap'
+            obtain ⟨ap, hap, _⟩ := except_map_ok hap'
+            exact ⟨ap, hap⟩
+          have hm := mapE_ok_of_all _ _ hallo
+          obtain ⟨zs, hzs, hpz⟩ := hmap hv hequiv hm
+          rw [hm'] at hzs
+          cases hzs
+          -- items on `a`
+          obtain ⟨halli', _⟩ := (flatMapE_ok_iff _ _ _).1 hs'
+          have halli : ∀ ap ∈ sol.map (okVal (outputOf a.fmt (stateUids a st))), ∃ zs, itemsOfPack a st ap = .ok zs := by
+            intro ap hap
+            obtain ⟨zs', hzs'⟩ := halli' _ (hpz.mem_iff.1 (List.mem_map.2 ⟨ap, hap, rfl⟩))
+            rw [hitems hv hm ap hap] at hzs'
+            obtain ⟨zs, hz, _⟩ := except_map_ok hzs'
+            exact ⟨zs, hz⟩
+          refine ⟨(sol.map (okVal (outputOf a.fmt (stateUids a st)))).flatMap (okVal (itemsOfPack a st)), ?_⟩
+          unfold itemsOfState selectPackMapping
+          simp only [hw, hsD, allocProblem_uids, hm]
+          exact (flatMapE_ok_iff _ _ _).2 ⟨halli, rfl⟩
+
+
+/-- **select_perm_formats**: re-numbering the audioPackFormats, audioChannelFormats and audioTrackUIDs (and,
+through `trackChannel`, the stream/track formats) — i.e. declaring them in another order with every reference
+remapped — does not change whether `select_rendering_items` succeeds (in either direction), and permutes the
+selected items, pack and channel indices renamed.  CHNA-only mode included (there the allocator identifies a
+track by its position in the audioTrackUID list, which moves along).  Hypotheses: references in range, the
+multitree check on the original document (it carries over: `FmtRenamed.multitreeOK`), and inverse maps `mi`
+(`FmtInv`; they exist for every permutation, `renameFormats` takes them as its argument).
+Success transfers through C07's `accept_iff_unique`: valid allocations correspond there and back
+(`ProbIso.valid`, `ProbIso.symm`, `ProbIso.roundtrip`), so "exactly one valid allocation" is invariant. -/
+theorem select_perm_formats {m mi : FmtMaps} {a a' : Adm} (h : FmtRenamed m a a') (hinv : FmtInv m mi a.fmt)
+    (hwf : a.refsInRange = true) (hmt : multitreeOK a.fmt = true) (given : Option Nat) (sel : List Nat) :
+    (∀ items, selectRenderingItems a given sel = .ok items →
+      ∃ items', selectRenderingItems a' given sel = .ok items' ∧ items'.Perm (items.map (renItemF m))) ∧
+    (∀ items', selectRenderingItems a' given sel = .ok items' →
+      ∃ items, selectRenderingItems a given sel = .ok items) := by
+  have hok := fmtRefsOK_of_refsInRange hwf
+  have hprog : selectProgramme a' given = selectProgramme a given :=
+    selectProgramme_congr (a := a) (a' := a') (by rw [h.programmes]) given
+  have hst := fun st => fmtRenamed_itemsOfState_iff h hinv hwf hmt st
+  refine ⟨fun items hs => ?_, fun items' hs' => ?_⟩
+  · rw [select_eq_spec] at hs ⊢
+    unfold specSelect at hs ⊢
+    rw [h.selectComplementary_eq, hprog]
+    cases hw : wrappedPacks a.fmt with
+    | error e => simp [hw] at hs
+    | ok wps =>
+      obtain ⟨wps', hw', _⟩ := h.wrappedPacks hok hw
+      simp only [hw] at hs
+      simp only [hw']
+      cases hc : selectComplementary a sel with
+      | error e => simp [hc] at hs
+      | ok ign =>
+        simp only [hc, h.specStates_eq] at hs ⊢
+        have hs1 : flatMapE (itemsOfState a) (specStates a (selectProgramme a given) ign) = .ok items := hs
+        show ∃ items', flatMapE (itemsOfState a') (specStates a (selectProgramme a given) ign) = .ok items' ∧ _
+        obtain ⟨hall, rfl⟩ := (flatMapE_ok_iff _ _ _).1 hs1
+        have hall' : ∀ st ∈ specStates a (selectProgramme a given) ign, ∃ its', itemsOfState a' st = .ok its' := by
+          intro st hstm
+          obtain ⟨its, hits⟩ := hall st hstm
+          obtain ⟨its', hits', _⟩ := (hst st).1 its hits
+          exact ⟨its', hits'⟩
+        refine ⟨_, (flatMapE_ok_iff _ _ _).2 ⟨hall', rfl⟩, ?_⟩
+        rw [List.map_flatMap]
+        refine perm_flatMap_congr (.refl _) fun st hstm => ?_
+        obtain ⟨its, hits⟩ := hall st hstm
+        obtain ⟨its', hits', hperm⟩ := (hst st).1 its hits
+        simpa [okVal, hits, hits'] using hperm
+  · rw [select_eq_spec] at hs' ⊢
+    unfold specSelect at hs' ⊢
+    rw [h.selectComplementary_eq, hprog] at hs'
+    cases hw' : wrappedPacks a'.fmt with
+    | error e => simp [hw'] at hs'
+    | ok wps' =>
+      obtain ⟨wps, hw⟩ := h.wrappedPacks_back hok hw'
+      simp only [hw'] at hs'
+      simp only [hw]
+      cases hc : selectComplementary a sel with
+      | error e => simp [hc] at hs'
+      | ok ign =>
+        simp only [hc, h.specStates_eq] at hs' ⊢
+        have hs1 : flatMapE (itemsOfState a') (specStates a (selectProgramme a given) ign) = .ok items' := hs'
+        show ∃ items, flatMapE (itemsOfState a) (specStates a (selectProgramme a given) ign) = .ok items
+        obtain ⟨hall', _⟩ := (flatMapE_ok_iff _ _ _).1 hs1
+        refine ⟨_, (flatMapE_ok_iff _ _ _).2 ⟨fun st hstm => ?_, rfl⟩⟩
+        obtain ⟨its', hits'⟩ := hall' st hstm
+        exact (hst st).2 its' hits'
+
+/-- **select_perm_formats** in `rename` form: `renameFormats m mi a` is the document with the format part
+re-declared in the order given by the permutations `m` (inverse `mi`). -/
+theorem select_perm_formats_rename {m mi : FmtMaps} {a : Adm} (hwf : a.refsInRange = true)
+    (hmt : multitreeOK a.fmt = true)
+    (hP : ((List.range a.fmt.packs.length).map m.σP).Perm (List.range a.fmt.packs.length))
+    (hC : ((List.range a.fmt.channels.length).map m.σC).Perm (List.range a.fmt.channels.length))
+    (hU : ((List.range a.fmt.trackUIDs.length).map m.σU).Perm (List.range a.fmt.trackUIDs.length))
+    (hiP : ∀ i, i < a.fmt.packs.length → mi.σP (m.σP i) = i)
+    (hiC : ∀ i, i < a.fmt.channels.length → mi.σC (m.σC i) = i)
+    (hiU : ∀ i, i < a.fmt.trackUIDs.length → mi.σU (m.σU i) = i)
+    (given : Option Nat) (sel : List Nat) :
+    (∀ items, selectRenderingItems a given sel = .ok items →
+      ∃ items', selectRenderingItems (renameFormats m mi a) given sel = .ok items' ∧
+        items'.Perm (items.map (renItemF m))) ∧
+    (∀ items', selectRenderingItems (renameFormats m mi a) given sel = .ok items' →
+      ∃ items, selectRenderingItems a given sel = .ok items) :=
+  select_perm_formats (renameFormats_renamed hwf hP hC hU hiP hiC hiU) ⟨hU, hiP, hiC, hiU⟩ hwf hmt given sel
+
+end FmtSuccess
+
+section Success
+open PackAlloc (Problem Sol Valid WF SolEquiv dropEmpty)
+
+/-! ## when does selection succeed: a single characterisation -/
+
+theorem mapE_error_mem {α β : Type} {f : α → Except Err β} {e : Err} : ∀ {l : List α}, mapE f l = .error e →
+    ∃ x ∈ l, f x = .error e
+  | [], h => by cases h
+  | x :: xs, h => by
+    unfold mapE at h
+    cases hx : f x with
+    | error e' =>
+      rw [hx] at h
+      cases h
+      exact ⟨x, List.mem_cons_self .., hx⟩
+    | ok y =>
+      rw [hx] at h
+      dsimp only at h
+      cases hxs : mapE f xs with
+      | error e' =>
+        rw [hxs] at h
+        cases h
+        obtain ⟨z, hz, hfz⟩ := mapE_error_mem hxs
+        exact ⟨z, List.mem_cons_of_mem _ hz, hfz⟩
+      | ok ys => rw [hxs] at h; cases h
+
+/-- the error of nested loops is the error of one of the iterations (the first failing one). -/
+theorem flatMapE_error_mem {α β : Type} {f : α → Except Err (List β)} {e : Err} {l : List α}
+    (h : flatMapE f l = .error e) : ∃ x ∈ l, f x = .error e := by
+  unfold flatMapE at h
+  cases hm : mapE f l with
+  | error e' =>
+    rw [hm] at h
+    cases h
+    exact mapE_error_mem hm
+  | ok ys => rw [hm] at h; cases h
+
+/-- **PackItemsOK**: the per-item parameter merges of an allocated output pack exist — the pack is of a
+renderable type (Objects / DirectSpeakers: one item per channel; HOA: one item), every allocated channel lies on
+exactly one pack path below the pack (`getPackFormatPath_ok_iff`), the absoluteDistance values along that path agree
+(`getPathParam_ok_iff`), and for HOA the merged parameters exist (`hoaMetaOf_ok_iff`: all channels agree on
+rtime/duration/normalization/nfcRefDist/screenRef) and all channels give the same absoluteDistance
+(`getSingleParam_ok_iff`). -/
+def PackItemsOK (f : Formats) (ap : AllocPack) : Prop :=
+  (((f.pack ap.pack).type = 3 ∨ (f.pack ap.pack).type = 1) ∧
+    ∀ ct ∈ ap.alloc, (∃ pp, getPackFormatPath f ap.pack ct.1 = .ok pp) ∧
+      ∃ ad, getPathParam (absDistAlong f (thePackPath f ap.pack ct.1)) = .ok ad) ∨
+  ((f.pack ap.pack).type = 4 ∧ (∀ ct ∈ ap.alloc, ∃ pp, getPackFormatPath f ap.pack ct.1 = .ok pp) ∧
+    (∃ hm, hoaMetaOf f (packPathsChannels f ap) = .ok hm) ∧
+    ∃ ad, getSingleParam (packPathsChannels f ap) (fun pc => getPathParam (absDistAlong f pc.1)) = .ok ad)
+
+theorem singleItem_ok_iff (a : Adm) (st : State) (ty p : Nat) (ct : Nat × TSpec) :
+    (∃ it, singleItem a st ty p ct = .ok it) ↔
+      (∃ pp, getPackFormatPath a.fmt p ct.1 = .ok pp) ∧
+        ∃ ad, getPathParam (absDistAlong a.fmt (thePackPath a.fmt p ct.1)) = .ok ad := by
+  unfold singleItem
+  cases hpp : getPackFormatPath a.fmt p ct.1 with
+  | error e => simp
+  | ok pp =>
+    have hpe := (getPackFormatPath_eq hpp).1
+    subst hpe
+    simp only [Except.ok.injEq, exists_eq', true_and]
+    have hged := getExtraData_ok_iff a st [(thePackPath a.fmt p ct.1, ct.1)] (some ct.1)
+    constructor
+    · rintro ⟨it, h⟩
+      cases hex : getExtraData a st [(thePackPath a.fmt p ct.1, ct.1)] (some ct.1) with
+      | error e => simp [hex] at h
+      | ok ex =>
+        obtain ⟨ad, had, _⟩ := (hged ex).1 hex
+        exact ⟨ad, ((getSingleParam_ok_iff _ _ _).1 had).2 _ (List.mem_singleton.2 rfl)⟩
+    · rintro ⟨ad, had⟩
+      have : getExtraData a st [(thePackPath a.fmt p ct.1, ct.1)] (some ct.1) = .ok (extraOf a st (some ct.1) ad) := by
+        refine (hged _).2 ⟨ad, (getSingleParam_ok_iff _ _ _).2 ⟨by simp, fun x hx => ?_⟩, rfl⟩
+        rw [List.mem_singleton.1 hx]
+        exact had
+      rw [this]
+      exact ⟨_, rfl⟩
+
+/-- **itemsOfPack_ok_iff**: `_get_rendering_items` returns for an allocated output pack exactly when
+`PackItemsOK` (whatever the state: the state's own data never fails). -/
+theorem itemsOfPack_ok_iff (a : Adm) (st : State) (ap : AllocPack) :
+    (∃ its, itemsOfPack a st ap = .ok its) ↔ PackItemsOK a.fmt ap := by
+  unfold itemsOfPack PackItemsOK
+  dsimp only
+  by_cases h31 : (a.fmt.pack ap.pack).type = 3 ∨ (a.fmt.pack ap.pack).type = 1
+  · have h4 : (a.fmt.pack ap.pack).type ≠ 4 := by rcases h31 with h | h <;> omega
+    simp only [h31, if_true, true_and, h4, false_and, or_false]
+    constructor
+    · rintro ⟨its, h⟩ ct hct
+      obtain ⟨hall, _⟩ := (mapE_ok_iff _ _ _).1 h
+      exact (singleItem_ok_iff a st _ ap.pack ct).1 (hall ct hct)
+    · intro hall
+      exact ⟨_, mapE_ok_of_all _ _ fun ct hct => (singleItem_ok_iff a st _ ap.pack ct).2 (hall ct hct)⟩
+  · simp only [h31, if_false, false_and, false_or]
+    by_cases h4 : (a.fmt.pack ap.pack).type = 4
+    · simp only [h4, if_true, true_and]
+      constructor
+      · rintro ⟨its, h⟩
+        cases hh : hoaItem a st ap with
+        | error e => simp [hh] at h
+        | ok it =>
+          obtain ⟨hp, hm, ex, hmeta, hex, _⟩ := (hoaItem_ok_iff a st ap it).1 hh
+          obtain ⟨ad, had, _⟩ := (getExtraData_ok_iff _ _ _ _ _).1 hex
+          exact ⟨hp, ⟨hm, hmeta⟩, ad, had⟩
+      · rintro ⟨hp, ⟨hm, hmeta⟩, ad, had⟩
+        have hex := (getExtraData_ok_iff a st (packPathsChannels a.fmt ap) none _).2 ⟨ad, had, rfl⟩
+        have := (hoaItem_ok_iff a st ap _).2 ⟨hp, hm, _, hmeta, hex, rfl⟩
+        rw [this]
+        exact ⟨_, rfl⟩
+    · simp [h4]
+
+/-- a valid allocation (C07 `Valid`) that uses no channel-less `AllocationPack`. -/
+def ValidNE (prob : PackAlloc.Problem) (sol : PackAlloc.Sol) : Prop :=
+  PackAlloc.Valid prob sol ∧ ∀ al ∈ sol, al.pack.channels ≠ []
+
+theorem validNE_iff (prob : PackAlloc.Problem) (sol : PackAlloc.Sol) :
+    ValidNE prob sol ↔ PackAlloc.Valid (PackAlloc.dropEmpty prob) sol := (valid_dropEmpty_iff' prob sol).symm
+
+/-- **StateAllocOK**: the allocation problem of the state has exactly one valid allocation up to `≈` (C07
+`accept_iff_unique`), every allocated pack of it has a usable output (`OutputOK`, `outputOf_ok_iff`) and the
+per-item parameter merges exist (`PackItemsOK`). -/
+def StateAllocOK (a : Adm) (st : State) (wps : List WPack) : Prop :=
+  ∃ sol, ValidNE (allocProblem a st wps).1 sol ∧
+    (∀ sol', ValidNE (allocProblem a st wps).1 sol' → PackAlloc.SolEquiv sol sol') ∧
+    ∀ al ∈ sol, OutputOK a.fmt (stateUids a st) al ∧ PackItemsOK a.fmt (declOutput a.fmt (stateUids a st) al)
+
+/-- the pipeline of a state, given the accepted allocation. -/
+theorem itemsOfState_of_accepted {a : Adm} {st : State} {wps : List WPack} (hw : wrappedPacks a.fmt = .ok wps)
+    {sol : PackAlloc.Sol} (hs : PackAlloc.selectPackMapping (allocProblem a st wps).1 = .accepted sol) :
+    itemsOfState a st =
+      match mapE (outputOf a.fmt (stateUids a st)) sol with
+      | .error e => .error e
+      | .ok packs => flatMapE (itemsOfPack a st) packs := by
+  unfold itemsOfState selectPackMapping
+  simp only [hw, hs, allocProblem_uids]
+  cases mapE (outputOf a.fmt (stateUids a st)) sol <;> rfl
+
+theorem itemsOfState_accepted_ok_iff {a : Adm} {st : State} {wps : List WPack} (hw : wrappedPacks a.fmt = .ok wps)
+    {sol : PackAlloc.Sol} (hs : PackAlloc.selectPackMapping (allocProblem a st wps).1 = .accepted sol) :
+    (∃ its, itemsOfState a st = .ok its) ↔
+      ∀ al ∈ sol, OutputOK a.fmt (stateUids a st) al ∧ PackItemsOK a.fmt (declOutput a.fmt (stateUids a st) al) := by
+  rw [itemsOfState_of_accepted hw hs]
+  have hpt := mapE_ok_iff_of_pointwise (outputOf_ok_iff a.fmt (stateUids a st)) sol
+  constructor
+  · rintro ⟨its, h⟩ al hal
+    cases hm : mapE (outputOf a.fmt (stateUids a st)) sol with
+    | error e => simp [hm] at h
+    | ok packs =>
+      simp only [hm] at h
+      obtain ⟨hok, rfl⟩ := (hpt packs).1 hm
+      obtain ⟨hall, _⟩ := (flatMapE_ok_iff _ _ _).1 h
+      exact ⟨hok al hal, (itemsOfPack_ok_iff a st _).1 (hall _ (List.mem_map.2 ⟨al, hal, rfl⟩))⟩
+  · intro hall
+    have hm := (hpt _).2 ⟨fun al hal => (hall al hal).1, rfl⟩
+    rw [hm]
+    refine ⟨_, (flatMapE_ok_iff _ _ _).2 ⟨fun ap hap => ?_, rfl⟩⟩
+    obtain ⟨al, hal, rfl⟩ := List.mem_map.1 hap
+    exact (itemsOfPack_ok_iff a st _).2 (hall al hal).2
+
+/-- **itemsOfState_ok_iff**: the per-state pipeline succeeds exactly when `StateAllocOK`. -/
+theorem itemsOfState_ok_iff {a : Adm} (hwf : AllocWF0 a) (st : State) {wps : List WPack}
+    (hw : wrappedPacks a.fmt = .ok wps) :
+    (∃ its, itemsOfState a st = .ok its) ↔ StateAllocOK a st wps := by
+  have hwf0 := hwf wps st hw
+  constructor
+  · rintro ⟨its, h⟩
+    cases hsel : PackAlloc.selectPackMapping (allocProblem a st wps).1 with
+    | conflicting => simp [itemsOfState, selectPackMapping, hw, hsel] at h
+    | ambiguous => simp [itemsOfState, selectPackMapping, hw, hsel] at h
+    | accepted sol =>
+      have hselD := hsel
+      rw [← PackAlloc.selectPackMapping_dropEmpty] at hselD
+      obtain ⟨hv, hu⟩ := PackAlloc.select_accepted_unique _ hwf0 sol hselD
+      exact ⟨sol, (validNE_iff _ _).2 hv, fun sol' hv' => hu sol' ((validNE_iff _ _).1 hv'),
+        (itemsOfState_accepted_ok_iff hw hsel).1 ⟨its, h⟩⟩
+  · rintro ⟨sol, hv, hu, hall⟩
+    obtain ⟨s', hs'⟩ := (PackAlloc.select_accepted_iff_unique_valid _ hwf0).2
+      ⟨sol, (validNE_iff _ _).1 hv, fun sol' hv' => hu sol' ((validNE_iff _ _).2 hv')⟩
+    have hequiv : PackAlloc.SolEquiv s' sol :=
+      (PackAlloc.select_accepted_unique _ hwf0 s' hs').2 _ ((validNE_iff _ _).1 hv)
+    rw [PackAlloc.selectPackMapping_dropEmpty] at hs'
+    exact (itemsOfState_accepted_ok_iff hw hs').2 fun al hal => hall al (hequiv.mem_iff.1 hal)
+
+/-- what an error of the per-state pipeline means: "Conflicting format references" exactly when no allocation is
+valid, "Ambiguous format references" exactly when two inequivalent ones are (C07 `accept_iff_unique`); any other
+error only when the unique valid allocation has a pack without usable output or without the per-item merges. -/
+theorem itemsOfState_error_cases {a : Adm} (hwf : AllocWF0 a) (st : State) {wps : List WPack}
+    (hw : wrappedPacks a.fmt = .ok wps) {e : Err} (h : itemsOfState a st = .error e) :
+    (e = .conflicting ∧ ¬ ∃ sol, ValidNE (allocProblem a st wps).1 sol) ∨
+    (e = .ambiguous ∧ ∃ s1 s2, ValidNE (allocProblem a st wps).1 s1 ∧ ValidNE (allocProblem a st wps).1 s2 ∧
+      ¬ PackAlloc.SolEquiv s1 s2) ∨
+    (∃ sol, ValidNE (allocProblem a st wps).1 sol ∧
+      (∀ sol', ValidNE (allocProblem a st wps).1 sol' → PackAlloc.SolEquiv sol sol') ∧
+      ¬ ∀ al ∈ sol, OutputOK a.fmt (stateUids a st) al ∧ PackItemsOK a.fmt (declOutput a.fmt (stateUids a st) al)) := by
+  have hwf0 := hwf wps st hw
+  cases hsel : PackAlloc.selectPackMapping (allocProblem a st wps).1 with
+  | conflicting =>
+    left
+    have he : e = .conflicting := by
+      simp [itemsOfState, selectPackMapping, hw, hsel] at h; exact h.symm
+    refine ⟨he, ?_⟩
+    rw [← PackAlloc.selectPackMapping_dropEmpty] at hsel
+    rintro ⟨sol, hv⟩
+    exact (PackAlloc.select_conflicting_iff_none_valid _ hwf0).1 hsel ⟨sol, (validNE_iff _ _).1 hv⟩
+  | ambiguous =>
+    right; left
+    have he : e = .ambiguous := by
+      simp [itemsOfState, selectPackMapping, hw, hsel] at h; exact h.symm
+    refine ⟨he, ?_⟩
+    rw [← PackAlloc.selectPackMapping_dropEmpty] at hsel
+    obtain ⟨s1, s2, h1, h2, hne⟩ := (PackAlloc.select_ambiguous_iff_two_valid _ hwf0).1 hsel
+    exact ⟨s1, s2, (validNE_iff _ _).2 h1, (validNE_iff _ _).2 h2, hne⟩
+  | accepted sol =>
+    right; right
+    have hselD := hsel
+    rw [← PackAlloc.selectPackMapping_dropEmpty] at hselD
+    obtain ⟨hv, hu⟩ := PackAlloc.select_accepted_unique _ hwf0 sol hselD
+    refine ⟨sol, (validNE_iff _ _).2 hv, fun sol' hv' => hu sol' ((validNE_iff _ _).1 hv'), fun hall => ?_⟩
+    obtain ⟨its, hits⟩ := (itemsOfState_accepted_ok_iff hw hsel).2 hall
+    rw [hits] at h
+    cases h
+
+/-- **select_ok_iff_of_multitree**: on a document that passes the multitree check, `select_rendering_items`
+returns items exactly when the `AllocationPack`s can be built, the complementary-object selection is consistent
+(`selectComplementary_ok_iff`) and every state of the comprehension satisfies `StateAllocOK`. -/
+theorem select_ok_iff_of_multitree {a : Adm} (hmt : multitreeOK a.fmt = true) (given : Option Nat) (sel : List Nat) :
+    (∃ items, selectRenderingItems a given sel = .ok items) ↔
+      ∃ wps ign, wrappedPacks a.fmt = .ok wps ∧ selectComplementary a sel = .ok ign ∧
+        ∀ st ∈ specStates a (selectProgramme a given) ign, StateAllocOK a st wps := by
+  have hwf := allocWF0_of_multitree hmt
+  rw [select_eq_spec]
+  unfold specSelect
+  cases hw : wrappedPacks a.fmt with
+  | error e => simp
+  | ok wps =>
+    cases hc : selectComplementary a sel with
+    | error e => simp
+    | ok ign =>
+      simp only [Except.ok.injEq, exists_and_left, exists_eq_left']
+      have e : (∃ items, flatMapE (fun st =>
+            match selectPackMapping a st with
+            | .error e => .error e
+            | .ok packs => flatMapE (itemsOfPack a st) packs) (specStates a (selectProgramme a given) ign) = .ok items) ↔
+          ∃ items, flatMapE (itemsOfState a) (specStates a (selectProgramme a given) ign) = .ok items := Iff.rfl
+      refine Iff.trans e ?_
+      constructor
+      · rintro ⟨items, h⟩ st hst
+        obtain ⟨hall, _⟩ := (flatMapE_ok_iff _ _ _).1 h
+        exact (itemsOfState_ok_iff hwf st hw).1 (hall st hst)
+      · intro hall
+        exact ⟨_, (flatMapE_ok_iff _ _ _).2 ⟨fun st hst => (itemsOfState_ok_iff hwf st hw).2 (hall st hst), rfl⟩⟩
+
+/-! ## the headline on validated documents (link to the C14 model of `validate_structure`) -/
+
+/-- the `AllocationPack`s of the document (`_PackAllocator(adm).packs`; `[]` when they cannot be built, which
+does not happen on validated documents: `wrappedPacks_ok_of_validate`). -/
+def thePacks (f : Formats) : List WPack :=
+  match wrappedPacks f with
+  | .ok wps => wps
+  | .error _ => []
+
+theorem thePacks_eq {f : Formats} {wps : List WPack} (h : wrappedPacks f = .ok wps) : thePacks f = wps := by
+  unfold thePacks; rw [h]
+
+/-- `select_rendering_items` as the real function runs it: `validate_structure(adm)` first (the C14 model
+`Validate.validateStructure`, on the document graph `toDoc a` of the same document), then the selection proper. -/
+def selectValidated (a : Adm) (given : Option Nat) (sel : List Nat) : Except (Validate.Err ⊕ Err) (List Item) :=
+  match Validate.validateStructure (toDoc a) with
+  | .error e => .error (.inl e)
+  | .ok () =>
+    match selectRenderingItems a given sel with
+    | .error e => .error (.inr e)
+    | .ok items => .ok items
+
+/-- decidable form of "`validate_structure` accepts the document" (for concrete documents). -/
+def validatedB (a : Adm) : Bool :=
+  match Validate.validateStructure (toDoc a) with
+  | .ok _ => true
+  | .error _ => false
+
+theorem validatedB_iff {a : Adm} : validatedB a = true ↔ Validate.validateStructure (toDoc a) = .ok () := by
+  unfold validatedB
+  cases Validate.validateStructure (toDoc a) with
+  | error e => simp
+  | ok u => cases u; simp
+
+/-- **select_ok_iff**: `select_rendering_items` returns items exactly when (1) `validate_structure` accepts the
+document, (2) the complementary-object selection is consistent (`selectComplementary_ok_iff`: every selected object
+is in a group, at most one member per group selected) and (3) for every state of the comprehension (programme
+content / root object / object path avoiding ignored objects) the allocation problem has exactly one valid
+allocation up to `≈` (C07 `accept_iff_unique`), every allocated pack of it has a usable output (`OutputOK`) and the
+per-item parameter merges exist (`PackItemsOK`).  That the `AllocationPack`s can be built is not a separate
+condition: it follows from (1). -/
+theorem select_ok_iff (a : Adm) (given : Option Nat) (sel : List Nat) :
+    (∃ items, selectValidated a given sel = .ok items) ↔
+      Validate.validateStructure (toDoc a) = .ok () ∧
+      ∃ ign, selectComplementary a sel = .ok ign ∧
+        ∀ st ∈ specStates a (selectProgramme a given) ign, StateAllocOK a st (thePacks a.fmt) := by
+  unfold selectValidated
+  cases hv : Validate.validateStructure (toDoc a) with
+  | error e => simp
+  | ok u =>
+    cases u
+    have hmt := multitreeOK_of_validate hv
+    obtain ⟨wps, hw⟩ := wrappedPacks_ok_of_validate hv
+    rw [thePacks_eq hw]
+    have key := select_ok_iff_of_multitree hmt given sel
+    simp only [true_and]
+    constructor
+    · rintro ⟨items, h⟩
+      cases hs : selectRenderingItems a given sel with
+      | error e => simp [hs] at h
+      | ok its =>
+        obtain ⟨wps', ign, hw', hc, hall⟩ := key.1 ⟨its, hs⟩
+        rw [hw] at hw'; cases hw'
+        exact ⟨ign, hc, hall⟩
+    · rintro ⟨ign, hc, hall⟩
+      obtain ⟨items, hs⟩ := key.2 ⟨wps, ign, hw, hc, hall⟩
+      exact ⟨items, by rw [hs]⟩
+
+/-- **select_eq_decl_validated**: on a document that `validate_structure` accepts, `select_rendering_items`
+either returns exactly the declarative items — `[ item | state ∈ specStates, allocated pack ∈ THE valid
+allocation of the state, item ∈ declItems ]`, every state satisfying `StateAllocOK` with that allocation — or fails
+with the error of the complementary-object selection, or with the error of one state of the comprehension, which is
+"Conflicting format references" exactly when that state has no valid allocation, "Ambiguous format references"
+exactly when it has two inequivalent ones, and anything else only when its unique valid allocation contains a pack
+without usable output or without the per-item merges.  Building the `AllocationPack`s never fails. -/
+theorem select_eq_decl_validated {a : Adm} (hv : Validate.validateStructure (toDoc a) = .ok ())
+    (given : Option Nat) (sel : List Nat) :
+    match selectRenderingItems a given sel with
+    | .ok items =>
+      ∃ ign, selectComplementary a sel = .ok ign ∧
+        ∃ alloc : State → PackAlloc.Sol,
+          (∀ st ∈ specStates a (selectProgramme a given) ign,
+            ValidNE (allocProblem a st (thePacks a.fmt)).1 (alloc st) ∧
+            (∀ sol', ValidNE (allocProblem a st (thePacks a.fmt)).1 sol' → PackAlloc.SolEquiv (alloc st) sol') ∧
+            ∀ al ∈ alloc st, OutputOK a.fmt (stateUids a st) al ∧
+              PackItemsOK a.fmt (declOutput a.fmt (stateUids a st) al)) ∧
+          items = (specStates a (selectProgramme a given) ign).flatMap fun st =>
+            declItemsOfSol a st (stateUids a st) (alloc st)
+    | .error e =>
+      selectComplementary a sel = .error e ∨
+      ∃ ign, selectComplementary a sel = .ok ign ∧
+        ∃ st ∈ specStates a (selectProgramme a given) ign, itemsOfState a st = .error e ∧
+          ((e = .conflicting ∧ ¬ ∃ sol, ValidNE (allocProblem a st (thePacks a.fmt)).1 sol) ∨
+           (e = .ambiguous ∧ ∃ s1 s2, ValidNE (allocProblem a st (thePacks a.fmt)).1 s1 ∧
+              ValidNE (allocProblem a st (thePacks a.fmt)).1 s2 ∧ ¬ PackAlloc.SolEquiv s1 s2) ∨
+           (∃ sol, ValidNE (allocProblem a st (thePacks a.fmt)).1 sol ∧
+              (∀ sol', ValidNE (allocProblem a st (thePacks a.fmt)).1 sol' → PackAlloc.SolEquiv sol sol') ∧
+              ¬ ∀ al ∈ sol, OutputOK a.fmt (stateUids a st) al ∧
+                PackItemsOK a.fmt (declOutput a.fmt (stateUids a st) al))) := by
+  have hmt := multitreeOK_of_validate hv
+  have hwf := allocWF0_of_multitree hmt
+  obtain ⟨wps, hw⟩ := wrappedPacks_ok_of_validate hv
+  rw [thePacks_eq hw]
+  cases hs : selectRenderingItems a given sel with
+  | ok items =>
+    simp only
+    rw [select_eq_spec] at hs
+    unfold specSelect at hs
+    simp only [hw] at hs
+    cases hc : selectComplementary a sel with
+    | error e => simp [hc] at hs
+    | ok ign =>
+      simp only [hc] at hs
+      have h' : flatMapE (itemsOfState a) (specStates a (selectProgramme a given) ign) = .ok items := hs
+      obtain ⟨hall, rfl⟩ := (flatMapE_ok_iff _ _ _).1 h'
+      have key : ∀ st ∈ specStates a (selectProgramme a given) ign, ∃ sol : PackAlloc.Sol,
+          (ValidNE (allocProblem a st wps).1 sol ∧
+            (∀ sol', ValidNE (allocProblem a st wps).1 sol' → PackAlloc.SolEquiv sol sol') ∧
+            ∀ al ∈ sol, OutputOK a.fmt (stateUids a st) al ∧
+              PackItemsOK a.fmt (declOutput a.fmt (stateUids a st) al)) ∧
+          okVal (itemsOfState a) st = declItemsOfSol a st (stateUids a st) sol := by
+        intro st hst
+        obtain ⟨its, hits⟩ := hall st hst
+        obtain ⟨wps', sol, hw', hv1, hne, hu, _, rfl⟩ := itemsOfState_spec hits hwf
+        rw [hw] at hw'
+        cases hw'
+        obtain ⟨sol2, _, hu2, hall2⟩ := (itemsOfState_ok_iff hwf st hw).1 ⟨_, hits⟩
+        have heq : PackAlloc.SolEquiv sol2 sol := hu2 sol ⟨hv1, hne⟩
+        refine ⟨sol, ⟨⟨hv1, hne⟩, fun sol' hv' => hu sol' hv'.1 hv'.2, fun al hal => hall2 al (heq.mem_iff.2 hal)⟩, ?_⟩
+        simp [okVal, hits, allocProblem_uids]
+      obtain ⟨alloc, halloc⟩ := exists_fun_of_forall_mem key
+      exact ⟨ign, rfl, alloc, fun st hst => (halloc st hst).1, flatMap_congr' fun st hst => (halloc st hst).2⟩
+  | error e =>
+    simp only
+    rw [select_eq_spec] at hs
+    unfold specSelect at hs
+    simp only [hw] at hs
+    cases hc : selectComplementary a sel with
+    | error e' =>
+      simp only [hc, Except.error.injEq] at hs
+      left; rw [hs]
+    | ok ign =>
+      right
+      simp only [hc] at hs
+      have h' : flatMapE (itemsOfState a) (specStates a (selectProgramme a given) ign) = .error e := hs
+      obtain ⟨st, hst, hste⟩ := flatMapE_error_mem h'
+      exact ⟨ign, rfl, st, hst, hste, itemsOfState_error_cases hwf st hw hste⟩
+
+end Success
+
 /-! ## Non-vacuity: a concrete document satisfying the hypotheses -/
 
 /-- One programme, one content `[o0, o4, o5]`; `o0 → {o1, o2}`, `o1 → o3`, `o2 → o3` (the shared
@@ -4336,19 +5398,19 @@ def exMi : FmtMaps :=
 example : ((List.range exDoc.fmt.packs.length).map exM.σP).Perm (List.range exDoc.fmt.packs.length) := by decide
 example : ((List.range exDoc.fmt.channels.length).map exM.σC).Perm (List.range exDoc.fmt.channels.length) := by decide
 example : ((List.range exDoc.fmt.trackUIDs.length).map exM.σU).Perm (List.range exDoc.fmt.trackUIDs.length) := by decide
-example : ∀ i, i < exDoc.fmt.packs.length → exMi.σP (exM.σP i) = i := by
+theorem exInvP : ∀ i, i < exDoc.fmt.packs.length → exMi.σP (exM.σP i) = i := by
   intro i hi
   have : exDoc.fmt.packs.length = 2 := rfl
   match i with
   | 0 => rfl
   | 1 => rfl
   | _ + 2 => omega
-example : ∀ i, i < exDoc.fmt.channels.length → exMi.σC (exM.σC i) = i := by
+theorem exInvC : ∀ i, i < exDoc.fmt.channels.length → exMi.σC (exM.σC i) = i := by
   intro i hi
   have : exDoc.fmt.channels.length = 3 := rfl
   show ((i + 1) % 3 + 2) % 3 = i
   omega
-example : ∀ i, i < exDoc.fmt.trackUIDs.length → exMi.σU (exM.σU i) = i := by
+theorem exInvU : ∀ i, i < exDoc.fmt.trackUIDs.length → exMi.σU (exM.σU i) = i := by
   intro i hi
   have : exDoc.fmt.trackUIDs.length = 2 := rfl
   match i with
@@ -4490,5 +5552,83 @@ example : minImp [none, some 5, some 2, none, some 2] = some 2 ∧ minImp [none,
   decide
 
 end NonVacuity2
+
+/-! ### non-vacuity: `select_perm_formats` (hypotheses hold for the example; CHNA-only mode) -/
+
+example : FmtInv exM exMi exDoc.fmt := ⟨by decide, exInvP, exInvC, exInvU⟩
+
+/-- the hypotheses of `select_perm_formats_rename` hold for `exDoc`, so selection succeeds on the re-numbered
+document because it does on the original (the result is the one computed above). -/
+example : ∃ items', selectRenderingItems (renameFormats exM exMi exDoc) none [] = .ok items' := by
+  have h := (select_perm_formats_rename (m := exM) (mi := exMi) (a := exDoc) (by decide) (by decide) (by decide)
+    (by decide) (by decide) exInvP exInvC exInvU none []).1
+  have hn : errOf (selectRenderingItems exDoc none []) = none := by decide
+  cases hs : selectRenderingItems exDoc none [] with
+  | error e => simp [hs, errOf] at hn
+  | ok items =>
+    obtain ⟨items', h', _⟩ := h items hs
+    exact ⟨items', h'⟩
+
+/-- a CHNA-only document: no programmes, contents or objects; all three audioTrackUIDs are allocated. -/
+def exChna : Adm :=
+  { programmes := [], contents := [], objects := [],
+    fmt := { exDoc.fmt with trackUIDs := exDoc.fmt.trackUIDs ++ [⟨3, .channel 2, 1⟩] } }
+
+example : exChna.refsInRange = true ∧ multitreeOK exChna.fmt = true := by decide
+
+example : FmtInv exM exMi exChna.fmt := by
+  refine ⟨by decide, exInvP, exInvC, ?_⟩
+  intro i hi
+  have : exChna.fmt.trackUIDs.length = 3 := rfl
+  match i with
+  | 0 => rfl
+  | 1 => rfl
+  | 2 => rfl
+  | _ + 3 => omega
+
+example : briefs (selectRenderingItems exChna none []) =
+    some [(none, [0], [some 0]), (none, [1], [some 1]), (none, [2], [some 2])] := by decide
+
+/-- CHNA-only mode, format part re-numbered (audioTrackUIDs 0 and 1 swapped, channels rotated): the same tracks on
+the renamed channels. -/
+example : briefs (selectRenderingItems (renameFormats exM exMi exChna) none []) =
+    some [(none, [2], [some 1]), (none, [0], [some 2]), (none, [1], [some 0])] := by decide
+
+/-! ### non-vacuity: validated documents (`select_ok_iff`, `select_eq_decl_validated`) -/
+
+/-- the C14 model of `validate_structure` accepts the example documents (also the one with Matrix packs). -/
+example : validatedB exDoc = true ∧ validatedB exChna = true := by decide
+
+example : Validate.validateStructure (toDoc exDoc) = .ok () := validatedB_iff.1 (by decide)
+
+example : multitreeOK exDoc.fmt = true := multitreeOK_of_validate (validatedB_iff.1 (by decide))
+
+/-- `select_ok_iff`, left-hand side: validation + selection succeed on the example. -/
+example : ∃ items, selectValidated exDoc none [] = .ok items := by
+  have hv : Validate.validateStructure (toDoc exDoc) = .ok () := validatedB_iff.1 (by decide)
+  have hn : errOf (selectRenderingItems exDoc none []) = none := by decide
+  cases hs : selectRenderingItems exDoc none [] with
+  | error e => simp [hs, errOf] at hn
+  | ok items => exact ⟨items, by unfold selectValidated; rw [hv, hs]⟩
+
+/-- `validate_structure` does NOT establish `wrappedNonempty`: a document with an audioPackFormat without channels and
+sub-packs is accepted by validation (and selection works: the channel-less `AllocationPack` is never allocated). -/
+def exEmptyPackDoc : Adm :=
+  { exChna with fmt := { exChna.fmt with packs := exChna.fmt.packs ++ [{ exPack [] [] with type := 3 }] } }
+
+example : validatedB exEmptyPackDoc = true ∧ wrappedNonempty exEmptyPackDoc.fmt = false ∧
+    briefs (selectRenderingItems exEmptyPackDoc none []) =
+      some [(none, [0], [some 0]), (none, [1], [some 1]), (none, [2], [some 2])] := by decide
+
+/-- the error branch of `select_eq_decl_validated`: a validated document on which one state has no valid allocation
+(the object references the Objects pack but its track belongs to the DirectSpeakers pack). -/
+def exConf : Adm :=
+  { exDoc with objects := exDoc.objects.map fun o => if o.packs = [1] then { o with packs := [0] } else o }
+
+example : validatedB exConf = true ∧ errOf (selectRenderingItems exConf none []) = some .conflicting := by decide
+
+/-- a document that validation rejects (pack loop): `selectValidated` fails in the validation stage. -/
+example : validatedB { exDoc with fmt := { exDoc.fmt with packs := [exPack [1] [1], exPack [2] [0]] } } = false := by
+  decide
 
 end Earverif.Adm
